@@ -415,3 +415,11 @@ Proof.
   replace (spec_total (dticks s1 s2)) with 0%Z in G; [exact G|].
   unfold spec_total, spec_busy. now rewrite !tk_zero.
 Qed.
+
+(* the hypotheses of the round-trip and share theorems are satisfiable by non-trivial inputs *)
+Example c07_hypotheses_nonvacuous :
+  wf_kstat 10 {| ks_total := [bs "105"; bs "0"; bs "50"; bs "1015"; bs "10"; bs "0"; bs "3"; bs "0"; bs "7"; bs "0"];
+                 ks_cpus := [(bs "0", [bs "105"; bs "0"; bs "50"; bs "1015"; bs "10"; bs "0"; bs "3"; bs "0"; bs "7"; bs "0"])];
+                 ks_tail := [(Tintr, [bs "5"; bs "1"]); (Tctxt, [bs "7"])] |} = true
+  /\ (Zpos 100 <= spec_total (dticks [100; 0; 50; 1000; 10; 0; 3; 0; 7; 0] [190; 0; 50; 1115; 10; 0; 3; 0; 9; 0]))%Z.
+Proof. split; vm_compute; congruence. Qed.
